@@ -1,6 +1,8 @@
 package chainsim
 
 import (
+	banktypes "github.com/cosmos/cosmos-sdk/x/bank/types"
+	authtypes "github.com/cosmos/cosmos-sdk/x/auth/types"
 	"fmt"
 	"math/big"
 	"sort"
@@ -389,7 +391,13 @@ func (a *StakeActor) Act(e *Env) {
 		}
 		return avail, "all"
 	}
-	switch e.Ch.Weighted("stake.kind", []int{20, 30, 10, 15, 25}) {
+	switch e.Ch.Weighted("stake.kind", []int{20, 30, 10, 15, 25, 4}) {
+	case 5: // plain bank transfer to a module account that holds user funds: must be refused (blocked address)
+		mod := []string{restaketypes.ModuleName, "tunnel", "bandtss", "bonded_tokens_pool"}[e.Ch.Intn("stake.tomodule.which", 4)]
+		d := a.Denoms[e.Ch.Intn("stake.tomodule.denom", len(a.Denoms))]
+		msg := banktypes.NewMsgSend(u.Addr, authtypes.NewModuleAddress(mod), sdk.NewCoins(sdk.NewInt64Coin(d, int64(1+e.Ch.Intn("stake.tomodule.amt", 9)))))
+		e.Submit(u, "send_to_module_account", nil, msg)
+		e.St.Fault("bank_send_to_module_account")
 	case 0:
 		a.submitDelegate(e, u, w.Vals[e.Ch.Intn("stake.val", len(w.Vals))], int64(1+e.Ch.Intn("stake.amt", 3000)))
 	case 1: // undelegate
@@ -574,6 +582,7 @@ func (p *RestakeParamChurn) Act(e *Env) {
 type DelegationChurn struct {
 	Users []*world.Account
 	Rate  int
+	Big   bool // amounts large enough to move consensus power (1 power = 10^6 tokens)
 	deleg map[string]map[string]int64
 }
 
@@ -612,6 +621,9 @@ func (a *DelegationChurn) Act(e *Env) {
 		return
 	}
 	amt := int64(1000 + e.Ch.Intn("churn.deleg.amt", 5_000_000))
+	if a.Big {
+		amt = int64(1+e.Ch.Intn("churn.deleg.bigamt", 40)) * 1_000_000
+	}
 	m := stakingtypes.NewMsgDelegate(u.Addr.String(), v.Val.String(), sdk.NewInt64Coin("uband", amt))
 	e.Submit(u, "churn_delegate", &churnMeta{User: u.Addr.String(), Val: v.Val.String(), Amt: amt}, m)
 }
